@@ -28,3 +28,37 @@ pub fn quiet_panics() {
         }
     }));
 }
+
+/// How late does this machine wake a sleeping thread right now? Five native 1 ms sleeps, worst overshoot in ns.
+/// Timing oracles add a multiple of this to their slack, so that a loaded machine cannot raise an alarm while a
+/// unit error (10x-1000x) still stands out on an idle one.
+pub fn sched_noise_ns() -> u64 {
+    let mut worst = 0u64;
+    for _ in 0..5 {
+        let rq = libc::timespec { tv_sec: 0, tv_nsec: 1_000_000 };
+        let t0 = mono_ns();
+        unsafe { libc::nanosleep(&rq, std::ptr::null_mut()) };
+        worst = worst.max((mono_ns() - t0).saturating_sub(1_000_000));
+    }
+    worst
+}
+
+/// Is this machine starving its threads of CPU right now? Spins for 20 ms of *thread CPU time* and returns
+/// wall time / CPU time (about 1.0 on an idle machine, >> 1 when oversubscribed). A lateness that coincides
+/// with a factor above 2.5 is reported as inconclusive, never as a violation.
+pub fn starvation() -> f64 {
+    let (c0, w0) = (thread_cpu_ns(), mono_ns());
+    let mut x = 0u64;
+    while thread_cpu_ns() - c0 < 20_000_000 {
+        for _ in 0..2000 {
+            x = x.wrapping_mul(6_364_136_223_846_793_005).wrapping_add(1_442_695_040_888_963_407);
+        }
+        std::hint::black_box(x);
+    }
+    let (c, w) = (thread_cpu_ns() - c0, mono_ns() - w0);
+    w as f64 / c.max(1) as f64
+}
+
+pub fn overloaded() -> bool {
+    starvation() > 2.5 || starvation() > 2.5
+}
